@@ -818,10 +818,10 @@ class Interp:
                 alts = [(('some', a - b), [a - b], "%s checked_sub(%s, %s) is Some" % (where, a, b)),
                         (('none',), [b - a - 1], "%s checked_sub(%s, %s) is None" % (where, a, b))]
             else:
-                alts = [(('some', a + b), [], "%s checked_add(%s, %s) is Some" % (where, a, b))]
                 aty = self.operand_ty(body, t["args"][0])
-                if aty in UMAX:
-                    alts = [(('some', a + b), [Lin(UMAX[aty]) - (a + b)], alts[0][2]), (('none',), [(a + b) - UMAX[aty] - 1], "%s checked_add overflows" % where)]
+                top = UMAX.get(aty, 2 ** 64 - 1)
+                alts = [(('some', a + b), [Lin(top) - (a + b)], "%s checked_add(%s, %s) is Some" % (where, a, b)),
+                        (('none',), [(a + b) - top - 1], "%s checked_add(%s, %s) overflows" % (where, a, b))]
             return self.fork(st, t, visits, alts)
         if short in ("expect", "unwrap") and args and isinstance(args[0], tuple) and args[0][0] in ('some', 'none', 'ok'):
             if args[0][0] == 'none':
